@@ -263,3 +263,23 @@ func (g *gm) checkBeyondEnd(ds string, off uint64) {
 	}
 	g.cls["since-beyond-end"] = true
 }
+
+// C02 at a size the small pool cannot reach (see largeCase): the feed and the
+// latest-only feed read with page limits that put token positions on arbitrary
+// change numbers equal the model's, from the store and over HTTP.
+func TestVerif_C02_large(t *testing.T) {
+	defer kit.S().Flush()
+	defer kit.CleanupScratch()
+	rapid.Check(t, func(t *rapid.T) {
+		g := newGM(t, []string{"a", "b"}, kit.GenCfg{})
+		defer g.close()
+		lim := largeCase(t, g)
+		kit.Journal(map[string]any{"large": true, "limits": lim, "ops": len(g.hist)})
+		defer kit.JournalDone()
+		g.checkFeed("a", nil, false)
+		g.checkFeed("a", lim, false)
+		g.checkFeed("a", lim, true)
+		g.checkFeed("b", lim, false)
+		kit.S().Case(map[string]any{"large": len(g.m.DS["a"].Latest), "limits": lim, "feed": len(g.m.DS["a"].Feed)}, len(g.m.DS["a"].Feed) > 256, g.classes()...)
+	})
+}
